@@ -102,34 +102,68 @@ Qed.
 Lemma scalar_start_ne c x : scalar_start c = true -> scalar_start x = false -> c <> x.
 Proof. intros H1 H2 ->. congruence. Qed.
 
+Lemma find_idx_cons_false (p : N -> bool) c l k : p c = false -> find_idx p (c :: l) k = find_idx p l (S k).
+Proof. intros H. cbn [find_idx]. rewrite H. reflexivity. Qed.
+
+Lemma closes_at_end_find r : forall rest k, closes_at_end r = true ->
+  find_idx (fun b => beq b 93) (r ++ rest) k = Some (k + length r - 1).
+Proof.
+  induction r as [|c r IH]; intros rest k H; [discriminate|].
+  cbn [closes_at_end] in H. destruct r as [|c' r'].
+  - cbn [app find_idx length]. unfold beq. rewrite H. f_equal. lia.
+  - apply andb_prop in H. destruct H as [Hc Hr]. apply Bool.negb_true_iff in Hc.
+    change ((c :: c' :: r') ++ rest) with (c :: ((c' :: r') ++ rest)).
+    rewrite find_idx_cons_false by exact Hc.
+    rewrite IH by exact Hr. cbn [length]. f_equal. lia.
+Qed.
+
+Lemma closes_at_end_len r : closes_at_end r = true -> 1 <= length r.
+Proof. destruct r; [discriminate | cbn; lia]. Qed.
+
+Lemma wf_word_unq s : wf_word s = true -> wf_unq s = true.
+Proof. intros H. unfold wf_unq. rewrite H. reflexivity. Qed.
+
 Lemma scalar_step_ok k s rest :
   wf_scalar k s = true -> (k = Unq -> starts_boundary rest) ->
   exists c d1, scalar_bytes k s ++ rest = c :: d1 /\ scalar_start c = true /\
                scalar_step (c :: d1) c = Ok (scalar_tok k s, rest).
 Proof.
   intros Hwf Hsep. destruct k; cbn [wf_scalar scalar_bytes scalar_tok] in *.
-  - specialize (Hsep eq_refl). destruct s as [|c s']; [discriminate|].
-    unfold wf_unq in Hwf.
-    apply andb_prop in Hwf. destruct Hwf as [Hwf Hall].
-    apply andb_prop in Hwf. destruct Hwf as [Hwf Hat].
-    apply andb_prop in Hwf. destruct Hwf as [H34 H59].
-    apply Bool.negb_true_iff in H34, H59, Hat.
-    assert (Hc : is_boundary c = false).
-    { cbn [forallb] in Hall. apply andb_prop in Hall. destruct Hall as [Hc _]. apply Bool.negb_true_iff in Hc. exact Hc. }
-    exists c, (s' ++ rest). split; [reflexivity|]. split.
-    + apply nonboundary_scalar_start; [exact Hc|]. intros ->. discriminate.
-    + assert (Hsplit : split_at_scalar (c :: s' ++ rest) = Ok (c :: s', rest)).
-      { apply (split_at_scalar_word (c :: s') rest); [discriminate | exact Hall | exact Hsep]. }
-      unfold scalar_step, beq. rewrite H34.
-      destruct (N.eqb c 64) eqn:E64.
-      * destruct s' as [|c1 s'']; [discriminate|].
-        cbn [app parse_variable].
-        assert (Hc1 : beq c1 91 = false).
-        { cbn [forallb] in Hall. apply andb_prop in Hall. destruct Hall as [_ Hall].
-          apply andb_prop in Hall. destruct Hall as [Hc1 _]. apply Bool.negb_true_iff in Hc1.
-          unfold beq. destruct (N.eqb_spec c1 91); [subst; vm_compute in Hc1; discriminate | reflexivity]. }
-        rewrite Hc1. cbn [app] in Hsplit. rewrite Hsplit. reflexivity.
-      * rewrite Hsplit. reflexivity.
+  - specialize (Hsep eq_refl). unfold wf_unq in Hwf. apply Bool.orb_true_iff in Hwf. destruct Hwf as [Hwf|Hwf].
+    + destruct s as [|c s']; [discriminate|].
+      unfold wf_word in Hwf.
+      apply andb_prop in Hwf. destruct Hwf as [Hwf Hall].
+      apply andb_prop in Hwf. destruct Hwf as [Hwf Hat].
+      apply andb_prop in Hwf. destruct Hwf as [H34 H59].
+      apply Bool.negb_true_iff in H34, H59, Hat.
+      assert (Hc : is_boundary c = false).
+      { cbn [forallb] in Hall. apply andb_prop in Hall. destruct Hall as [Hc _]. apply Bool.negb_true_iff in Hc. exact Hc. }
+      exists c, (s' ++ rest). split; [reflexivity|]. split.
+      * apply nonboundary_scalar_start; [exact Hc|]. intros ->. discriminate.
+      * assert (Hsplit : split_at_scalar (c :: s' ++ rest) = Ok (c :: s', rest)).
+        { apply (split_at_scalar_word (c :: s') rest); [discriminate | exact Hall | exact Hsep]. }
+        unfold scalar_step, beq. rewrite H34.
+        destruct (N.eqb c 64) eqn:E64.
+        -- destruct s' as [|c1 s'']; [discriminate|].
+           cbn [app parse_variable].
+           assert (Hc1 : beq c1 91 = false).
+           { cbn [forallb] in Hall. apply andb_prop in Hall. destruct Hall as [_ Hall].
+             apply andb_prop in Hall. destruct Hall as [Hc1 _]. apply Bool.negb_true_iff in Hc1.
+             unfold beq. destruct (N.eqb_spec c1 91); [subst; vm_compute in Hc1; discriminate | reflexivity]. }
+           rewrite Hc1. cbn [app] in Hsplit. rewrite Hsplit. reflexivity.
+        -- rewrite Hsplit. reflexivity.
+    + (* @[ body ] *)
+      unfold wf_varexpr in Hwf.
+      destruct s as [|c0 s0]; [discriminate|]. destruct c0 as [|p0]; [discriminate|].
+      do 7 (destruct p0 as [p0|p0|]; try discriminate).
+      destruct s0 as [|c1 r]; [discriminate|]. destruct c1 as [|p1]; [discriminate|].
+      do 7 (destruct p1 as [p1|p1|]; try discriminate).
+      exists 64%N, (91%N :: r ++ rest). split; [reflexivity|]. split; [reflexivity|].
+      unfold scalar_step. cbn [beq N.eqb Pos.eqb]. cbn [parse_variable]. cbn [beq N.eqb Pos.eqb].
+      rewrite closes_at_end_find by exact Hwf. pose proof (closes_at_end_len r Hwf) as Hl.
+      replace (S (2 + length r - 1)) with (length (64%N :: 91%N :: r)) by (cbn [length]; lia).
+      change (64%N :: 91%N :: r ++ rest) with ((64%N :: 91%N :: r) ++ rest).
+      rewrite firstn_app, Nat.sub_diag, firstn_all, skipn_app, Nat.sub_diag, skipn_all. cbn [firstn skipn app]. rewrite app_nil_r. reflexivity.
   - exists 34%N, (s ++ 34%N :: rest). split; [cbn [app]; rewrite <- app_assoc; reflexivity|]. split; [reflexivity|].
     unfold scalar_step. cbn [beq N.eqb Pos.eqb]. rewrite parse_quote_scalar_wf by exact Hwf. reflexivity.
 Qed.
@@ -214,53 +248,6 @@ Proof.
   - rewrite app_nil_r in E. eauto.
 Qed.
 
-(* ------------------------------------------------------------------ stage 1: flat documents *)
-Lemma meas_len d st m p t d' st' m' p' t' k :
-  length d = k + length d' -> 2 * k >= 1 + phi st' ->
-  1 + meas (mkps d' st' m' p' t') <= meas (mkps d st m p t) + phi st' + phi st' - phi st' - phi st'.
-Proof. unfold meas. cbn [pdata pst_]. lia. Qed.
-
-Lemma flat_fields_reach : forall fs, flat_doc fs = true -> wf_fields fs = true ->
-  forall g i T, (forall j, gap_ok (g j)) -> sep_ok g (toks_fields fs) i ->
-  reaches (mkps (render_toks g (toks_fields fs) i) SKey false 0 T)
-          (mkps (g (i + length (toks_fields fs))) SKey false 0 (T ++ flat_fields false (length T) fs)).
-Proof.
-  induction fs as [|f fs IH]; intros Hflat Hwf g i T Hg Hsep.
-  - cbn [toks_fields render_toks length flat_fields]. rewrite Nat.add_0_r, app_nil_r. apply reaches_refl.
-  - destruct f as [k key [o|] v| |]; try discriminate. destruct v as [k' s| | | |]; try discriminate.
-    cbn [flat_doc] in Hflat. cbn [wf_fields wf_field wf_value] in Hwf.
-    apply andb_prop in Hwf. destruct Hwf as [Hwf Hwfs].
-    apply andb_prop in Hwf. destruct Hwf as [Hwf _].
-    apply andb_prop in Hwf. destruct Hwf as [Hkey Hval].
-    cbn [toks_fields toks_field toks_value optok app] in *.
-    cbn [sep_ok] in Hsep. destruct Hsep as (Hs1 & _ & Hs3 & Hsep).
-    destruct (scalar_bytes_hd _ _ Hkey) as (ck & rk & Ek & Hck).
-    destruct (scalar_bytes_hd _ _ Hval) as (cv & rv & Ev & Hcv).
-    rewrite !render_toks_cons. cbn [fst stok].
-    (* key *)
-    eapply reaches_trans.
-    { eapply reaches_step; [apply step_key_scalar; [apply Hg | exact Hkey |] | apply same_upto_ws_refl |].
-      - intros ->. apply Hs1. reflexivity.
-      - unfold meas. cbn [pdata pst_ phi]. rewrite !app_length, Ek. cbn [length]. lia. }
-    (* operator *)
-    eapply reaches_trans.
-    { eapply reaches_step; [apply step_kvs_op; [apply Hg|] | apply same_upto_ws_refl |].
-      - apply hdP_gap; [apply Hg | | discriminate |].
-        + intros c Hc ->. discriminate.
-        + rewrite Ev. cbn. intros ->. discriminate.
-      - unfold meas. cbn [pdata pst_ phi]. rewrite !app_length. destruct o; cbn [op_symbol length]; lia. }
-    (* value *)
-    eapply reaches_trans.
-    { eapply reaches_step; [apply step_objval_scalar; [apply Hg | exact Hval |] | apply same_upto_ws_refl |].
-      - intros ->. apply Hs3. reflexivity.
-      - unfold meas. cbn [pdata pst_ phi]. rewrite !app_length, Ev. cbn [length]. lia. }
-    (* the remaining fields *)
-    eapply reaches_eq; [apply (IH Hflat Hwfs g (S (S (S i))) _ Hg Hsep)|].
-    cbn [flat_fields flat_field flat_value length]. unfold tpush.
-    rewrite !app_length. cbn [length]. rewrite <- !app_assoc. cbn [app]. rewrite <- !app_assoc. cbn [app].
-    f_equal; [f_equal; lia|]. do 5 f_equal. lia.
-Qed.
-
 (* ------------------------------------------------------------------ from a run to `parse` *)
 Lemma parse_unfold input :
   parse input =
@@ -287,14 +274,6 @@ Proof.
   - cbn [app] in *. rewrite (Hbom eq_refl).
     erewrite ploop_reaches; [reflexivity | exact Hr | apply step_end, Hg |].
     unfold meas. cbn [pdata pst_ phi]. lia.
-Qed.
-
-Theorem parse_render_flat : forall d l,
-  flat_doc d = true -> wf_doc d -> wf_layout d l -> parse (render d l) = Ok (flatten d, bom l).
-Proof.
-  intros d l Hflat Hwf Hl. eapply parse_of_reaches; [exact Hl|].
-  destruct Hl as (Hg & Hsep & _).
-  apply (flat_fields_reach d Hflat Hwf (gap l) 0 [] Hg Hsep).
 Qed.
 
 (* ------------------------------------------------------------------ token steps: containers *)
@@ -624,7 +603,7 @@ Proof.
   - exists 123%N, []. split; [reflexivity | right; reflexivity].
   - exists 123%N, []. split; [reflexivity | right; reflexivity].
   - cbn [wf_value] in H. repeat (apply andb_prop in H; destruct H as [H ?]).
-    destruct (scalar_bytes_hd Unq name H) as (c & r & E & Hc). exists c, r. split; [exact E | left; exact Hc].
+    destruct (scalar_bytes_hd Unq name (wf_word_unq name H)) as (c & r & E & Hc). exists c, r. split; [exact E | left; exact Hc].
 Qed.
 
 Lemma render_skip (P : N -> Prop) g ts i :
@@ -1177,8 +1156,12 @@ Qed.
 
 Lemma wf_unq_second c r : wf_unq (c :: r) = true -> hdP (fun x => x <> 61%N) r.
 Proof.
-  unfold wf_unq. intros H. andb_split. destruct r as [|x r]; [exact I|]. cbn [hdP].
-  cbn [forallb] in *. andb_split. intros ->. discriminate.
+  unfold wf_unq. intros H. apply Bool.orb_true_iff in H. destruct H as [H|H].
+  - unfold wf_word in H. andb_split. destruct r as [|x r]; [exact I|]. cbn [hdP].
+    cbn [forallb] in *. andb_split. intros ->. discriminate.
+  - unfold wf_varexpr in H. destruct c as [|p0]; [discriminate|].
+    do 7 (destruct p0 as [p0|p0|]; try discriminate).
+    destruct r as [|c1 r]; [exact I|]. cbn [hdP]. intros ->. discriminate.
 Qed.
 
 Definition close_or_scalar (c : N) : Prop := scalar_start c = true \/ c = 125%N.
@@ -1329,121 +1312,6 @@ Proof.
   tape_eq.
 Qed.
 
-(* ------------------------------------------------------------------ stage 3: everything but parameters *)
-Definition Pv (v : value) : Prop :=
-  wf_value v = true -> noparam_value v = true ->
-  forall c, ((c = CArr -> is_header v = false) -> Vlemma c v) /\ (is_container v = true -> Blemma c v).
-Definition Pf (f : field) : Prop :=
-  wf_field f = true -> noparam_field f = true ->
-  F1lemma f /\ match f with Field _ _ op v => FRlemma op v | _ => True end.
-Definition Pfs (fs : fields) : Prop :=
-  wf_fields fs = true -> noparam_fields fs = true ->
-  Flemma fs /\ match fs with FCons (Field _ _ op v) fs' => FRlemma op v /\ Flemma fs' | _ => True end.
-Definition Pvs (vs : values) : Prop :=
-  wf_items vs = true -> noparam_values vs = true ->
-  Ilemma vs /\ match vs with VCons _ vs' => Ilemma vs' | VNil => True end.
-
-Lemma noparam_all :
-  (forall v, Pv v) /\ (forall f, Pf f) /\ (forall fs, Pfs fs) /\ (forall vs, Pvs vs).
-Proof.
-  apply doc_mutind.
-  - (* scalar *)
-    intros k s Hwf _ c. split; [intros _; apply V_scalar; exact Hwf | discriminate].
-  - (* object *)
-    intros fs IHfs tlv IHtl Hwf Hpl c. cbn [wf_value noparam_value] in Hwf, Hpl. andb_split.
-    assert (HB : Blemma c (VObject fs tlv)).
-    { apply B_object_gen.
-      - destruct (IHfs ltac:(assumption) ltac:(assumption)) as [_ Hparts].
-        destruct fs as [|f fs']; [discriminate|]. destruct f as [k key op v| |]; try discriminate.
-        cbn [first_field_ok] in *. destruct op as [o|]; [|discriminate].
-        destruct Hparts as [HFR HF'].
-        cbn [wf_fields wf_field] in *. andb_split.
-        apply OH_field; assumption.
-      - destruct tlv as [|v tl']; [apply OE_nil|].
-        cbn [wf_tail] in *. andb_split. destruct v as [k s| | | |]; try discriminate.
-        apply OE_tail; assumption. }
-    split; [intros _; apply V_of_B; [reflexivity | exact HB] | intros _; exact HB].
-  - (* array *)
-    intros items IH Hwf Hpl c. cbn [wf_value noparam_value] in Hwf, Hpl. andb_split.
-    assert (HB : Blemma c (VArray items)).
-    { destruct (IH ltac:(assumption) ltac:(assumption)) as [HI Hparts].
-      destruct items as [|v vs]; [apply B_array_nil|].
-      cbn [wf_items] in *. andb_split.
-      destruct v as [k s| | | |]; try discriminate.
-      - apply B_array_scalar; assumption.
-      - apply B_array_cont; auto.
-      - apply B_array_cont; auto. destruct items; [discriminate | reflexivity].
-      - apply B_array_cont; auto. }
-    split; [intros _; apply V_of_B; [reflexivity | exact HB] | intros _; exact HB].
-  - (* array -> key-value list *)
-    intros items IH kvs _ Hwf Hpl c. cbn [wf_value noparam_value] in Hwf, Hpl. andb_split.
-    assert (HB : Blemma c (VArrayKv items kvs)).
-    { destruct (IH ltac:(assumption) ltac:(assumption)) as [_ Hparts].
-      destruct items as [|v vs]; [discriminate|]. destruct v as [k s| | | |]; try discriminate.
-      cbn [wf_items wf_value] in *. andb_split.
-      apply B_arraykv; assumption. }
-    split; [intros _; apply V_of_B; [reflexivity | exact HB] | intros _; exact HB].
-  - (* header *)
-    intros name v IH Hwf Hpl c. cbn [wf_value noparam_value] in Hwf, Hpl. andb_split.
-    split; [|discriminate]. intros Hc. destruct c; [|specialize (Hc eq_refl); discriminate].
-    apply V_header; try assumption.
-    + match goal with H : negb _ = true |- _ => apply Bool.negb_true_iff in H; exact H end.
-    + apply (IH ltac:(assumption) ltac:(assumption) CObj). assumption.
-  - (* field *)
-    intros k key op v IH Hwf Hpl. cbn [wf_field noparam_field] in Hwf, Hpl. andb_split.
-    assert (HFR : FRlemma op v).
-    { apply FR_of_V; [assumption | | apply (IH ltac:(assumption) ltac:(assumption) CObj); discriminate].
-      intros ->. assumption. }
-    split; [apply F1_field; assumption | exact HFR].
-  - intros name u s _ Hpl. discriminate.
-  - intros name u fs _ _ Hpl. discriminate.
-  - (* no field *)
-    intros _ _. split; [apply F_nil | exact I].
-  - (* fields *)
-    intros f IHf fs IHfs Hwf Hpl. cbn [wf_fields noparam_fields] in Hwf, Hpl. andb_split.
-    destruct (IHf ltac:(assumption) ltac:(assumption)) as [HF1 Hparts].
-    destruct (IHfs ltac:(assumption) ltac:(assumption)) as [HF _].
-    split.
-    + apply F_cons; try assumption. destruct f as [k key op v| |]; try discriminate.
-      exists (scalar_tok k key), (fun off => op_toks false op ++ flat_value (S off + length (op_toks false op)) v).
-      intros off. split; [reflexivity | destruct k; reflexivity].
-    + destruct f as [k key op v| |]; [split; assumption | exact I | exact I].
-  - intros _ _. split; [apply I_nil | exact I].
-  - (* items *)
-    intros v IHv vs IHvs Hwf Hpl. cbn [wf_items noparam_values] in Hwf, Hpl. andb_split.
-    destruct (IHvs ltac:(assumption) ltac:(assumption)) as [HI _].
-    split; [|exact HI].
-    apply I_cons; [|exact HI].
-    apply (IHv ltac:(assumption) ltac:(assumption) CArr). intros _.
-    match goal with H : negb _ = true |- _ => apply Bool.negb_true_iff in H; exact H end.
-Qed.
-
-Theorem parse_render_noparam : forall d l,
-  noparam_fields d = true -> wf_doc d -> wf_layout d l -> parse (render d l) = Ok (flatten d, bom l).
-Proof.
-  intros d l Hpl Hwf Hl. eapply parse_of_reaches; [exact Hl|].
-  destruct Hl as (Hg & Hsep & _).
-  destruct (proj1 (proj2 (proj2 noparam_all)) d Hwf Hpl) as [HF _].
-  specialize (HF (gap l) 0 [] [] 0 Hg). rewrite !app_nil_r in HF.
-  apply HF; [exact Hsep | left; split; reflexivity].
-Qed.
-
-
-Lemma plain_noparam :
-  (forall v, plain_value v = true -> noparam_value v = true) /\
-  (forall f, plain_field f = true -> noparam_field f = true) /\
-  (forall fs, plain_fields fs = true -> noparam_fields fs = true) /\
-  (forall vs, plain_values vs = true -> noparam_values vs = true).
-Proof.
-  apply doc_mutind; cbn [plain_value plain_field plain_fields plain_values noparam_value noparam_field noparam_fields noparam_values];
-    intros; andb_split; try discriminate; try reflexivity; repeat (apply andb_true_intro; split); auto.
-  destruct tail; [reflexivity | discriminate].
-Qed.
-
-Theorem parse_render_plain : forall d l,
-  plain_fields d = true -> wf_doc d -> wf_layout d l -> parse (render d l) = Ok (flatten d, bom l).
-Proof. intros d l H. apply parse_render_noparam. apply plain_noparam. exact H. Qed.
-
 (* ------------------------------------------------------------------ parameters: [[name] value ]  [[!name] k = v .. ] *)
 Lemma not33 (n : N) : n <> 33%N -> match Some n with Some 33%N => true | _ => false end = false.
 Proof.
@@ -1488,15 +1356,15 @@ Proof.
     rewrite Hsplit. reflexivity.
 Qed.
 
-Lemma wf_unq_word s : wf_unq s = true ->
+Lemma wf_unq_word s : wf_word s = true ->
   exists c r, s = c :: r /\ scalar_start c = true /\ forallb (fun b => negb (is_boundary b)) s = true.
 Proof.
-  intros H. destruct (scalar_bytes_hd Unq s H) as (c & r & E & Hc). exists c, r. cbn in E. split; [exact E|]. split; [exact Hc|].
-  subst s. unfold wf_unq in H. andb_split. assumption.
+  intros H. destruct (scalar_bytes_hd Unq s (wf_word_unq s H)) as (c & r & E & Hc). exists c, r. cbn in E. split; [exact E|]. split; [exact Hc|].
+  subst s. unfold wf_word in H. andb_split. assumption.
 Qed.
 
 Lemma parse_param_value u name g1 s g2 rest p st t :
-  wf_pname name = true -> wf_unq s = true -> gap_ok g1 -> gap_ok g2 -> starts_boundary (g2 ++ 93%N :: rest) ->
+  wf_pname name = true -> wf_word s = true -> gap_ok g1 -> gap_ok g2 -> starts_boundary (g2 ++ 93%N :: rest) ->
   parse_param (pname_bytes u name ++ g1 ++ s ++ g2 ++ 93%N :: rest) p st t false =
   Next (mkps rest SKey false p (t ++ [param_tok u name; TUnquoted s])).
 Proof.
@@ -1509,7 +1377,7 @@ Proof.
 Qed.
 
 Lemma parse_param_object u name g1 s rest c2 r2 p st t :
-  wf_pname name = true -> wf_unq s = true -> gap_ok g1 -> starts_boundary rest ->
+  wf_pname name = true -> wf_word s = true -> gap_ok g1 -> starts_boundary rest ->
   skip_ws_t rest = Some (c2 :: r2) -> c2 <> 93%N ->
   parse_param (pname_bytes u name ++ g1 ++ s ++ rest) p st t false =
   Next (mkps (c2 :: r2) SKvs false (S (length t)) (t ++ [param_tok u name; TObject p false; TUnquoted s])).
@@ -1575,7 +1443,7 @@ Lemma pname_head u name : exists r, pname_bytes u name = 91%N :: r.
 Proof. eexists. reflexivity. Qed.
 
 (* [[name] value ]  — the machine state s0 is the one whose step enters parse_parameter_definition *)
-Lemma PV_run name u s : wf_pname name = true -> wf_unq s = true ->
+Lemma PV_run name u s : wf_pname name = true -> wf_word s = true ->
   forall g i more T0 p0 st s0, (forall j, gap_ok (g j)) -> sep_ok g (toks_field (ParamV name u s) ++ more) i ->
   step s0 = keep_mixed false (parse_param (pname_bytes u name ++ render_toks g (((s, true) : rtok) :: rbracket :: more) (S i)) p0 st T0 false) ->
   2 * length (pname_bytes u name ++ render_toks g (((s, true) : rtok) :: rbracket :: more) (S i)) <= meas s0 ->
@@ -1603,7 +1471,7 @@ Lemma step_open_pname g u name rest p T x :
   keep_mixed false (parse_param (pname_bytes u name ++ rest) (length T) SOpen (T ++ [TObject p false]) false).
 Proof. intros Hg. unfold pname_bytes. cbn [app]. apply step_open_param. exact Hg. Qed.
 
-Lemma F1_paramV name u s : wf_pname name = true -> wf_unq s = true -> F1lemma (ParamV name u s).
+Lemma F1_paramV name u s : wf_pname name = true -> wf_word s = true -> F1lemma (ParamV name u s).
 Proof.
   intros Hn Hs g i more T p Hg Hsep Hctx.
   eapply reaches_eq.
@@ -1638,7 +1506,7 @@ Proof. rewrite <- (app_nil_r (T0 ++ [P; x; y])). apply nth_error_param2. Qed.
 
 (* [[name] key op value .. ] *)
 Lemma PO_run name u key o v fs :
-  wf_pname name = true -> wf_unq key = true -> FRlemma (Some o) v -> Flemma fs ->
+  wf_pname name = true -> wf_word key = true -> FRlemma (Some o) v -> Flemma fs ->
   forall g i more T0 p0 st s0, (forall j, gap_ok (g j)) ->
   sep_ok g (toks_field (ParamO name u (FCons (Field Unq key (Some o) v) fs)) ++ more) i ->
   ctx_ok CObj (T0 ++ [param_tok u name]) p0 ->
@@ -1692,7 +1560,7 @@ Lemma param_tok_not_cont u name : is_cont_tok (param_tok u name) = false.
 Proof. destruct u; reflexivity. Qed.
 
 Lemma F1_paramO name u key o v fs :
-  wf_pname name = true -> wf_unq key = true -> FRlemma (Some o) v -> Flemma fs ->
+  wf_pname name = true -> wf_word key = true -> FRlemma (Some o) v -> Flemma fs ->
   F1lemma (ParamO name u (FCons (Field Unq key (Some o) v) fs)).
 Proof.
   intros Hn Hkey HFR HF g i more T p Hg Hsep Hctx.
@@ -1705,7 +1573,7 @@ Proof.
   - rewrite Hd. unfold meas. cbn [pdata pst_ phi]. rewrite !app_length. lia.
 Qed.
 
-Lemma OH_paramV name u s fs : wf_pname name = true -> wf_unq s = true -> Flemma fs -> OHlemma (FCons (ParamV name u s) fs).
+Lemma OH_paramV name u s fs : wf_pname name = true -> wf_word s = true -> Flemma fs -> OHlemma (FCons (ParamV name u s) fs).
 Proof.
   intros Hn Hs HF g i more T p Hg Hsep HT.
   cbn [toks_fields] in *. rewrite <- ?app_assoc in *.
@@ -1723,7 +1591,7 @@ Proof.
 Qed.
 
 Lemma OH_paramO name u key o v pfs fs :
-  wf_pname name = true -> wf_unq key = true -> FRlemma (Some o) v -> Flemma pfs -> Flemma fs ->
+  wf_pname name = true -> wf_word key = true -> FRlemma (Some o) v -> Flemma pfs -> Flemma fs ->
   OHlemma (FCons (ParamO name u (FCons (Field Unq key (Some o) v) pfs)) fs).
 Proof.
   intros Hn Hkey HFR HFp HF g i more T p Hg Hsep HT.
@@ -1779,7 +1647,7 @@ Proof.
         + apply OH_paramV; assumption.
         + destruct pfs as [|pf pfs']; [discriminate|]. destruct pf as [k key op v| |]; try discriminate.
           destruct k; [|discriminate]. destruct op as [o|]; [|discriminate].
-          destruct Hparts as [HFR HFp]. cbn [wf_fields wf_field wf_scalar] in *. andb_split.
+          destruct Hparts as [HFR HFp]. cbn [wf_fields wf_field wf_scalar param_first_word] in *. andb_split.
           apply OH_paramO; assumption.
       - destruct tlv as [|v tl']; [apply OE_nil|].
         cbn [wf_tail] in *. andb_split. destruct v as [k s| | | |]; try discriminate.
@@ -1809,6 +1677,7 @@ Proof.
     intros name v IH Hwf c. cbn [wf_value] in Hwf. andb_split.
     split; [|discriminate]. intros Hc. destruct c; [|specialize (Hc eq_refl); discriminate].
     apply V_header; try assumption.
+    + apply wf_word_unq. assumption.
     + match goal with H : negb _ = true |- _ => apply Bool.negb_true_iff in H; exact H end.
     + apply (IH ltac:(assumption) CObj). assumption.
   - (* field *)
@@ -1824,7 +1693,7 @@ Proof.
     destruct (IH ltac:(assumption)) as [_ Hparts].
     destruct pfs as [|pf pfs']; [discriminate|]. destruct pf as [k key op v| |]; try discriminate.
     destruct k; [|discriminate]. destruct op as [o|]; [|discriminate].
-    destruct Hparts as [HFR HFp]. cbn [Fparts] in HFR. cbn [wf_fields wf_field wf_scalar] in *. andb_split.
+    destruct Hparts as [HFR HFp]. cbn [Fparts] in HFR. cbn [wf_fields wf_field wf_scalar param_first_word] in *. andb_split.
     split; [apply F1_paramO; assumption | split; assumption].
   - (* no field *)
     intros _. split; [apply F_nil | exact I].
